@@ -75,14 +75,15 @@ class TimeoutInjector:
         self.mod.call_variant_peptides_wrapper = self.orig
 
 
-def unsound(case, res, out):
+def unsound(case, res, out, dom=()):
     bad, n_fallback, inconclusive = cveval.check_sound_fast(case, res)
     if n_fallback:
         out.label('fallback_enumeration')
     if inconclusive:
         out.inconclusive = 'too_many_records_for_fallback'
-    if bad:
-        # rare circRNA defects (rate-capped open finding), by structural signature
+    if bad and not dom:
+        # rare circRNA defects (rate-capped open finding), by structural signature; inputs in
+        # the domain of another open finding (pepsin, ...) are classified there
         ref = Ref(case['ref'])
         circs = {r['id']: r for r in case['records'] if r['kind'] == 'circ'}
         rest = []
@@ -104,6 +105,8 @@ def prop(case, ctx):
     # pylint: disable=too-many-return-statements,too-many-branches
     out = Outcome()
     out.label('family:' + case['family'], 'rule:' + case['opts']['rule'])
+    if case.get('planted'):
+        out.label('planted:' + case['planted'])
     if not case['records']:
         return out.label('no_records')
     dom = cveval.known_domain_findings(case)
@@ -121,7 +124,7 @@ def prop(case, ctx):
             out.known.append(dom[0])
             return out
         return out.fail(f'callVariant raised {type(e).__name__}: {e}', bucket)
-    bad = unsound(case, res0, out)
+    bad = unsound(case, res0, out, dom)
     if bad and dom:
         out.known.append(dom[0])
         return out
@@ -152,7 +155,7 @@ def prop(case, ctx):
             out.known.append(dom[0])
             return out
         return out.fail(f'limited run raised {type(e).__name__}: {e}', bucket + ':limited')
-    bad = unsound(case, res1, out)
+    bad = unsound(case, res1, out, dom)
     aggressive = lim['naa_to_collapse'] <= 1 and not os.environ.get('VERIF_NO_AGGR')
     if bad and (dom or aggressive):
         out.known.append(dom[0] if dom else 'C01-collapse-knobs-aggressive')
